@@ -1,8 +1,635 @@
 import QP.Base
+/-!
+# C12 — expressions: the written formula, its value, substitution, three-valued comparison
+
+Model of what `qupulse.expressions.sympy.ExpressionScalar / ExpressionVector` compute
+(`evaluate_in_scope`, `evaluate_with_exact_rationals`, `evaluate_symbolic`, the arithmetic operators,
+the ordering comparisons).  sympy's parser / simplifier / printer and numpy's ufuncs are *modelled*
+by the denotational semantics `eval`; everything is exact rational arithmetic (`Rat`), which is what
+the exact-rational mode is supposed to return and what float evaluation approximates.
+
+The file is self-contained (other properties reuse `Expr`, `eval`, `subst`):
+
+* `Sc`, `Val`, `Env`        scalars (rational | bool), values (scalar | 1-d array of scalars), scopes
+* `Expr`                    the formula tree (6 constructors; operators are data: `ScUn`, `ScBin`, `UnOp`, `BinOp`)
+* `eval`                    value of a formula in a scope, Python / numpy error classes as `Err`
+* `fv`, `bv`, `subst`, `substNum`   free / bound names, simultaneous substitution, partial numeric substitution
+* `cmp3`                    three-valued ordering comparison
+* `PyOp`, `PyOp.build`      the formula an arithmetic operator of `ExpressionScalar` builds
+* `Expr.ofSexp`, `handle`   line protocol
+-/
 namespace QP.C12
+
+/-! ## Values -/
+
+inductive Err where
+  | unbound (x : String)   -- a variable of the expression is not in the scope
+  | zeroDivision           -- `x / 0`, `x % 0`, `0 ** -n`
+  | type                   -- operand of the wrong kind (bool where a number is needed, scalar indexed, …)
+  | shape                  -- arrays of different length combined / broadcast to an incompatible length
+  | index                  -- index out of range
+  | notInteger             -- index or sum bound that is not an integer
+  deriving Repr, BEq, DecidableEq
+
+/-- a scalar: an exact rational or a truth value -/
+inductive Sc where
+  | q (r : Rat)
+  | b (t : Bool)
+  deriving Repr, BEq, DecidableEq
+
+/-- a value: a scalar or a one-dimensional array of scalars (numpy array of sample times) -/
+inductive Val where
+  | sc (s : Sc)
+  | vec (xs : List Sc)
+  deriving Repr, BEq, DecidableEq
+
+abbrev Val.num (r : Rat) : Val := .sc (.q r)
+abbrev Val.bool (t : Bool) : Val := .sc (.b t)
+def Val.nums (rs : List Rat) : Val := .vec (rs.map .q)
+
+/-- a scope: name ↦ value -/
+abbrev Env := String → Option Val
+
+def Env.empty : Env := fun _ => none
+/-- `ρ.set x v` : the scope `ρ` with `x` (re)bound to `v` -/
+def Env.set (ρ : Env) (x : String) (v : Val) : Env := fun y => if y = x then some v else ρ y
+/-- `ρ₁.over ρ₂` : the union of two scopes in which `ρ₁` wins -/
+def Env.over (ρ₁ ρ₂ : Env) : Env := fun x => match ρ₁ x with | some v => some v | none => ρ₂ x
+def Env.ofList (l : List (String × Val)) : Env := fun x => (l.find? (fun p => p.1 == x)).map (·.2)
+
+/-! ## Operators on scalars -/
+
+/-- unary operators that act on one scalar (and element-wise on arrays) -/
+inductive ScUn where
+  | neg | abs | floor | ceil | not
+  | pow (n : Int)        -- integer power with a literal exponent
+  deriving Repr, BEq, DecidableEq
+
+/-- binary operators that act on two scalars (and element-wise, with broadcasting, on arrays) -/
+inductive ScBin where
+  | add | sub | mul | div | mod | min | max
+  | lt | le | gt | ge | eq | ne
+  | and | or
+  deriving Repr, BEq, DecidableEq
+
+/-- `a ** n` for an integer literal `n`; `0 ** negative` is Python's `ZeroDivisionError` -/
+def powInt (a : Rat) (n : Int) : Except Err Rat :=
+  if 0 ≤ n then .ok (a ^ n.toNat)
+  else if a = 0 then .error .zeroDivision
+  else .ok (1 / a ^ (-n).toNat)
+
+/-- Python / numpy / sympy `%`: the result has the sign of the divisor -/
+def pyMod (a b : Rat) : Rat := a - b * ((a / b).floor : Int)
+
+def ScUn.eval : ScUn → Sc → Except Err Sc
+  | .neg, .q a => .ok (.q (-a))
+  | .abs, .q a => .ok (.q (if a < 0 then -a else a))
+  | .floor, .q a => .ok (.q (a.floor : Int))
+  | .ceil, .q a => .ok (.q (a.ceil : Int))
+  | .pow n, .q a => match powInt a n with | .ok r => .ok (.q r) | .error e => .error e
+  | .not, .b t => .ok (.b (!t))
+  | _, _ => .error .type
+
+def ScBin.eval : ScBin → Sc → Sc → Except Err Sc
+  | .add, .q a, .q b => .ok (.q (a + b))
+  | .sub, .q a, .q b => .ok (.q (a - b))
+  | .mul, .q a, .q b => .ok (.q (a * b))
+  | .div, .q a, .q b => if b = 0 then .error .zeroDivision else .ok (.q (a / b))
+  | .mod, .q a, .q b => if b = 0 then .error .zeroDivision else .ok (.q (pyMod a b))
+  | .min, .q a, .q b => .ok (.q (if a ≤ b then a else b))
+  | .max, .q a, .q b => .ok (.q (if a ≤ b then b else a))
+  | .lt, .q a, .q b => .ok (.b (decide (a < b)))
+  | .le, .q a, .q b => .ok (.b (decide (a ≤ b)))
+  | .gt, .q a, .q b => .ok (.b (decide (b < a)))
+  | .ge, .q a, .q b => .ok (.b (decide (b ≤ a)))
+  | .eq, .q a, .q b => .ok (.b (decide (a = b)))
+  | .ne, .q a, .q b => .ok (.b (decide (a ≠ b)))
+  | .and, .b s, .b t => .ok (.b (s && t))
+  | .or, .b s, .b t => .ok (.b (s || t))
+  | _, _, _ => .error .type
+
+/-- `Piecewise((x, c), (y, True))` on scalars -/
+def scIte : List Sc → Except Err Sc
+  | [.b c, x, y] => .ok (if c then x else y)
+  | _ => .error .type
+
+/-! ## Element-wise lifting with numpy broadcasting (scalar against array, arrays of equal length) -/
+
+/-- `List.mapM` for `Except`, by plain structural recursion -/
+def mapE {α β : Type} (f : α → Except Err β) : List α → Except Err (List β)
+  | [] => .ok []
+  | x :: xs =>
+    match f x with
+    | .error e => .error e
+    | .ok y =>
+      match mapE f xs with
+      | .error e => .error e
+      | .ok ys => .ok (y :: ys)
+
+def Val.len? : Val → Option Nat
+  | .sc _ => none
+  | .vec xs => some xs.length
+
+/-- the `i`-th sample of a value; a scalar is the same at every sample -/
+def Val.at (i : Nat) : Val → Option Sc
+  | .sc s => some s
+  | .vec xs => xs[i]?
+
+/-- common length of the arrays among `vs` (`none`: all scalars); different lengths do not broadcast -/
+def commonLen : List Val → Except Err (Option Nat)
+  | [] => .ok none
+  | v :: vs =>
+    match commonLen vs with
+    | .error e => .error e
+    | .ok r =>
+      match v.len?, r with
+      | none, r => .ok r
+      | some n, none => .ok (some n)
+      | some n, some m => if n = m then .ok (some n) else .error .shape
+
+/-- the operands' `j`-th samples -/
+def row (vs : List Val) (j : Nat) : Except Err (List Sc) :=
+  mapE (fun v => match v.at j with | some s => .ok s | none => .error .shape) vs
+
+def rowApply (f : List Sc → Except Err Sc) (vs : List Val) (j : Nat) : Except Err Sc :=
+  match row vs j with
+  | .error e => .error e
+  | .ok r => f r
+
+/-- apply a scalar function sample by sample -/
+def liftN (f : List Sc → Except Err Sc) (vs : List Val) : Except Err Val :=
+  match commonLen vs with
+  | .error e => .error e
+  | .ok none => match rowApply f vs 0 with | .ok s => .ok (.sc s) | .error e => .error e
+  | .ok (some n) =>
+    match mapE (rowApply f vs) (List.range n) with
+    | .ok ss => .ok (.vec ss)
+    | .error e => .error e
+
+def un1 (f : Sc → Except Err Sc) : List Sc → Except Err Sc
+  | [a] => f a
+  | _ => .error .type
+
+def bin2 (f : Sc → Sc → Except Err Sc) : List Sc → Except Err Sc
+  | [a, b] => f a b
+  | _ => .error .type
+
+/-! ## Operators on values -/
+
+inductive UnOp where
+  | sc (o : ScUn)
+  | bcast (n : Nat)      -- `Broadcast(x, (n,))`
+  deriving Repr, BEq, DecidableEq
+
+inductive BinOp where
+  | sc (o : ScBin)
+  | index                -- `a[i]`
+  | cons                 -- vector literal: first entry, remaining entries
+  deriving Repr, BEq, DecidableEq
+
+/-- integer value of a scalar value, if it is one -/
+def Val.toInt : Val → Except Err Int
+  | .sc (.q r) => if r.den = 1 then .ok r.num else .error .notInteger
+  | _ => .error .type
+
+def UnOp.eval : UnOp → Val → Except Err Val
+  | .sc o, v => liftN (un1 o.eval) [v]
+  | .bcast n, .sc s => .ok (.vec (List.replicate n s))
+  | .bcast n, .vec xs =>
+    if xs.length = n then .ok (.vec xs)
+    else match xs with
+      | [s] => .ok (.vec (List.replicate n s))
+      | _ => .error .shape
+
+def BinOp.eval : BinOp → Val → Val → Except Err Val
+  | .sc o, a, b => liftN (bin2 o.eval) [a, b]
+  | .index, .vec xs, i =>
+    match i.toInt with
+    | .error e => .error e
+    | .ok k =>
+      let k' : Int := if k < 0 then k + xs.length else k     -- Python: negative indices count from the end
+      if k' < 0 then .error .index else
+      match xs[k'.toNat]? with
+      | some s => .ok (.sc s)
+      | none => .error .index
+  | .index, .sc _, _ => .error .type
+  | .cons, .sc s, .vec xs => .ok (.vec (s :: xs))
+  | .cons, _, _ => .error .type
+
+/-! ## Formulas -/
+
+inductive Expr where
+  | lit (v : Val)                                  -- number, truth value or array constant
+  | var (x : String)
+  | un (op : UnOp) (a : Expr)
+  | bin (op : BinOp) (a b : Expr)
+  | ite (c a b : Expr)                             -- `Piecewise((a, c), (b, True))`
+  | sum (i : String) (lo hi body : Expr)           -- `Sum(body, (i, lo, hi))`, both bounds included
+  deriving Repr, BEq, DecidableEq
+
+namespace Expr
+abbrev num (r : Rat) : Expr := .lit (.num r)
+abbrev neg (a : Expr) : Expr := .un (.sc .neg) a
+abbrev abs (a : Expr) : Expr := .un (.sc .abs) a
+abbrev floor (a : Expr) : Expr := .un (.sc .floor) a
+abbrev ceil (a : Expr) : Expr := .un (.sc .ceil) a
+abbrev not (a : Expr) : Expr := .un (.sc .not) a
+abbrev pow (a : Expr) (n : Int) : Expr := .un (.sc (.pow n)) a
+abbrev bcast (a : Expr) (n : Nat) : Expr := .un (.bcast n) a
+abbrev add (a b : Expr) : Expr := .bin (.sc .add) a b
+abbrev sub (a b : Expr) : Expr := .bin (.sc .sub) a b
+abbrev mul (a b : Expr) : Expr := .bin (.sc .mul) a b
+abbrev div (a b : Expr) : Expr := .bin (.sc .div) a b
+abbrev mod (a b : Expr) : Expr := .bin (.sc .mod) a b
+abbrev min (a b : Expr) : Expr := .bin (.sc .min) a b
+abbrev max (a b : Expr) : Expr := .bin (.sc .max) a b
+abbrev lt (a b : Expr) : Expr := .bin (.sc .lt) a b
+abbrev le (a b : Expr) : Expr := .bin (.sc .le) a b
+abbrev index (a i : Expr) : Expr := .bin .index a i
+/-- vector literal `[e₀, e₁, …]` -/
+def vec : List Expr → Expr
+  | [] => .lit (.vec [])
+  | e :: es => .bin .cons e (vec es)
+end Expr
+
+/-- `builtins.sum(f(k) for k in range(lo, lo + n))`, accumulating from the left starting at `acc` -/
+def sumLoop (f : Int → Except Err Val) : Val → Int → Nat → Except Err Val
+  | acc, _, 0 => .ok acc
+  | acc, lo, n + 1 =>
+    match f lo with
+    | .error e => .error e
+    | .ok v =>
+      match BinOp.eval (.sc .add) acc v with
+      | .error e => .error e
+      | .ok acc' => sumLoop f acc' (lo + 1) n
+
+/-- the value of a formula in a scope (all names are looked up in the *same* scope: simultaneous) -/
+def eval (ρ : Env) : Expr → Except Err Val
+  | .lit v => .ok v
+  | .var x => match ρ x with | some v => .ok v | none => .error (.unbound x)
+  | .un op a =>
+    match eval ρ a with
+    | .error e => .error e
+    | .ok va => op.eval va
+  | .bin op a b =>
+    match eval ρ a with
+    | .error e => .error e
+    | .ok va =>
+      match eval ρ b with
+      | .error e => .error e
+      | .ok vb => op.eval va vb
+  | .ite c a b =>
+    -- `numpy.select` evaluates every branch
+    match eval ρ c with
+    | .error e => .error e
+    | .ok vc =>
+      match eval ρ a with
+      | .error e => .error e
+      | .ok va =>
+        match eval ρ b with
+        | .error e => .error e
+        | .ok vb => liftN scIte [vc, va, vb]
+  | .sum i lo hi body =>
+    match eval ρ lo with
+    | .error e => .error e
+    | .ok vlo =>
+      match eval ρ hi with
+      | .error e => .error e
+      | .ok vhi =>
+        match vlo.toInt with
+        | .error e => .error e
+        | .ok l =>
+          match vhi.toInt with
+          | .error e => .error e
+          | .ok h => sumLoop (fun k => eval (ρ.set i (.num k)) body) (.num 0) l (h + 1 - l).toNat
+
+/-- an `ExpressionVector`: every entry is evaluated in the same scope -/
+def evalVector (ρ : Env) (es : List Expr) : Except Err (List Val) := mapE (eval ρ) es
+
+/-! ## Names, substitution -/
+
+def fv : Expr → List String
+  | .lit _ => []
+  | .var x => [x]
+  | .un _ a => fv a
+  | .bin _ a b => fv a ++ fv b
+  | .ite c a b => fv c ++ (fv a ++ fv b)
+  | .sum i lo hi body => fv lo ++ (fv hi ++ (fv body).filter (fun x => x ≠ i))
+
+/-- names bound by a `Sum` somewhere in the formula -/
+def bv : Expr → List String
+  | .lit _ => []
+  | .var _ => []
+  | .un _ a => bv a
+  | .bin _ a b => bv a ++ bv b
+  | .ite c a b => bv c ++ (bv a ++ bv b)
+  | .sum i lo hi body => i :: (bv lo ++ (bv hi ++ bv body))
+
+abbrev Subst := String → Option Expr
+
+/-- `σ` without an entry for `i` -/
+def Subst.erase (σ : Subst) (i : String) : Subst := fun x => if x = i then none else σ x
+
+/-- simultaneous substitution (`recursive_substitution`): every free occurrence of a name with an
+entry in `σ` is replaced, replacements are not substituted again; a summation index shadows. No
+renaming of summation indices takes place (as in the code). -/
+def subst (σ : Subst) : Expr → Expr
+  | .lit v => .lit v
+  | .var x => match σ x with | some s => s | none => .var x
+  | .un op a => .un op (subst σ a)
+  | .bin op a b => .bin op (subst σ a) (subst σ b)
+  | .ite c a b => .ite (subst σ c) (subst σ a) (subst σ b)
+  | .sum i lo hi body => .sum i (subst σ lo) (subst σ hi) (subst (σ.erase i) body)
+
+/-- the substitution that replaces the names bound in `ρ₁` by their values -/
+def Subst.ofEnv (ρ₁ : Env) : Subst := fun x => (ρ₁ x).map Expr.lit
+
+/-- partial numeric substitution: `evaluate_symbolic` with numbers / arrays -/
+def substNum (ρ₁ : Env) (e : Expr) : Expr := subst (Subst.ofEnv ρ₁) e
+
+/-- the scope in which `e` is evaluated after substituting `σ` and evaluating in `ρ` -/
+def Env.after (ρ : Env) (σ : Subst) : Env := fun x =>
+  match σ x with
+  | none => ρ x
+  | some s => match eval ρ s with | .ok v => some v | .error _ => none
+
+/-! ## Three-valued ordering comparison -/
+
+inductive Cmp where
+  | lt | le | gt | ge
+  deriving Repr, BEq, DecidableEq
+
+def Cmp.holds : Cmp → Rat → Rat → Bool
+  | .lt, a, b => decide (a < b)
+  | .le, a, b => decide (a ≤ b)
+  | .gt, a, b => decide (b < a)
+  | .ge, a, b => decide (b ≤ a)
+
+def Cmp.toBin : Cmp → ScBin
+  | .lt => .lt | .le => .le | .gt => .gt | .ge => .ge
+
+/-- `ExpressionScalar.__lt__` etc.: decided (`some`) exactly when both sides are numbers, i.e. contain
+no free name and evaluate; `none` ("unknown") otherwise -/
+def cmp3 (c : Cmp) (e₁ e₂ : Expr) : Option Bool :=
+  if fv e₁ = [] ∧ fv e₂ = [] then
+    match eval Env.empty e₁, eval Env.empty e₂ with
+    | .ok (.sc (.q a)), .ok (.sc (.q b)) => some (c.holds a b)
+    | _, _ => none
+  else none
+
+/-! ## Class of the open findings PF-C12e (b) / PF-C12f (`known_findings.jsonl`)
+
+The model takes `Sum` as the lambdified python loop and `subst` never evaluates anything.  sympy itself
+evaluates a `Sum` that has no free names left (by Karr's convention, or numerically) wherever a function
+needs its sign or value.  For formulas in this class the correspondence between `subst`/`substNum` and
+`evaluate_symbolic` is known not to hold; the harness skips them (same predicate, `closed_sum_inspected`). -/
+
+def ScUn.inspects : ScUn → Bool
+  | .floor | .ceil | .abs => true
+  | _ => false
+
+def ScBin.inspects : ScBin → Bool
+  | .mod | .min | .max | .lt | .le | .gt | .ge | .eq | .ne => true
+  | _ => false
+
+/-- a `Sum` all of whose free names are in `known` (numbers for sympy: replaced by `evaluate_symbolic`, or
+indices of enclosing sums) below Min / Max / Mod / floor / ceiling / Abs / a relation / a Piecewise condition -/
+def closedSumInspected (known : List String) : Bool → Expr → Bool
+  | _, .lit _ => false
+  | _, .var _ => false
+  | ins, .un (.sc o) a => closedSumInspected known (ins || o.inspects) a
+  | ins, .un (.bcast _) a => closedSumInspected known ins a
+  | ins, .bin (.sc o) a b =>
+    closedSumInspected known (ins || o.inspects) a || closedSumInspected known (ins || o.inspects) b
+  | ins, .bin _ a b => closedSumInspected known ins a || closedSumInspected known ins b
+  | ins, .ite c a b =>
+    closedSumInspected known true c || closedSumInspected known ins a || closedSumInspected known ins b
+  | ins, .sum i lo hi body =>
+    (ins && (fv (.sum i lo hi body)).all (fun x => known.contains x))
+      || closedSumInspected known ins lo || closedSumInspected known ins hi
+      || closedSumInspected (i :: known) ins body
+
+def InKnownClassClosedSum (known : List String) (e : Expr) : Bool := closedSumInspected known false e
+
+/-! ## The formula an arithmetic operator builds -/
+
+/-- the Python operator methods of `ExpressionScalar` (`self` is the expression, `other` the operand) -/
+inductive PyOp where
+  | add | radd | sub | rsub | mul | rmul | truediv | rtruediv | floordiv | rfloordiv
+  deriving Repr, BEq, DecidableEq
+
+def PyOp.build : PyOp → Expr → Expr → Expr
+  | .add, self, other => .add self other
+  | .radd, self, other => .add other self
+  | .sub, self, other => .sub self other
+  | .rsub, self, other => .sub other self
+  | .mul, self, other => .mul self other
+  | .rmul, self, other => .mul other self
+  | .truediv, self, other => .div self other
+  | .rtruediv, self, other => .div other self
+  | .floordiv, self, other => .floor (.div self other)
+  | .rfloordiv, self, other => .floor (.div other self)
+
+/-- what the operator means on numbers -/
+def PyOp.sem : PyOp → Rat → Rat → Except Err Rat
+  | .add, s, o => .ok (s + o)
+  | .radd, s, o => .ok (o + s)
+  | .sub, s, o => .ok (s - o)
+  | .rsub, s, o => .ok (o - s)
+  | .mul, s, o => .ok (s * o)
+  | .rmul, s, o => .ok (o * s)
+  | .truediv, s, o => if o = 0 then .error .zeroDivision else .ok (s / o)
+  | .rtruediv, s, o => if s = 0 then .error .zeroDivision else .ok (o / s)
+  | .floordiv, s, o => if o = 0 then .error .zeroDivision else .ok ((s / o).floor : Int)
+  | .rfloordiv, s, o => if s = 0 then .error .zeroDivision else .ok ((o / s).floor : Int)
+
+/-! ## Judge: does a value returned by the implementation agree with the formula's value? -/
+
+def absR (r : Rat) : Rat := if r < 0 then -r else r
+
+/-- two scalars agree up to the absolute tolerance `tol` (`tol = 0`: exactly) -/
+def Sc.Close (tol : Rat) : Sc → Sc → Prop
+  | .q x, .q y => absR (x - y) ≤ tol
+  | .b s, .b t => s = t
+  | _, _ => False
+
+def Sc.closeB (tol : Rat) : Sc → Sc → Bool
+  | .q x, .q y => decide (absR (x - y) ≤ tol)
+  | .b s, .b t => s == t
+  | _, _ => false
+
+def allClose (tol : Rat) : List Sc → List Sc → Bool
+  | [], [] => true
+  | x :: xs, y :: ys => Sc.closeB tol x y && allClose tol xs ys
+  | _, _ => false
+
+/-- value agreement, sample by sample; a scalar stands for the array of that value at every sample
+(sympy may simplify `t - t` to `0`, numpy broadcasts) -/
+def Val.Close (tol : Rat) : Val → Val → Prop
+  | .sc a, .sc b => Sc.Close tol a b
+  | .vec xs, .vec ys => xs.length = ys.length ∧ ∀ (i : Nat) (x y : Sc), xs[i]? = some x → ys[i]? = some y → Sc.Close tol x y
+  | .sc a, .vec ys => ∀ y ∈ ys, Sc.Close tol a y
+  | .vec xs, .sc b => ∀ x ∈ xs, Sc.Close tol x b
+
+def Val.closeB (tol : Rat) : Val → Val → Bool
+  | .sc a, .sc b => Sc.closeB tol a b
+  | .vec xs, .vec ys => allClose tol xs ys
+  | .sc a, .vec ys => ys.all (fun y => Sc.closeB tol a y)
+  | .vec xs, .sc b => xs.all (fun x => Sc.closeB tol x b)
+
+/-- the property's core clause for one evaluation: the implementation returned `got` for `e` in `ρ` -/
+def Agrees (tol : Rat) (ρ : Env) (e : Expr) (got : Val) : Prop :=
+  ∃ v, eval ρ e = .ok v ∧ Val.Close tol v got
+
+def agreesB (tol : Rat) (ρ : Env) (e : Expr) (got : Val) : Bool :=
+  match eval ρ e with
+  | .ok v => Val.closeB tol v got
+  | .error _ => false
+
+/-! ## Line protocol -/
 open Sexp
 
+def scS : Sc → Sexp
+  | .q r => if r.den = 1 then ofInt r.num else ofRat r
+  | .b t => ofBool t
+
+def valS : Val → Sexp
+  | .sc s => scS s
+  | .vec xs => .list (.atom "vec" :: xs.map scS)
+
+def errS : Err → Sexp
+  | .unbound x => .list [.atom "error", .atom "unbound", .atom x]
+  | .zeroDivision => .list [.atom "error", .atom "zero_division"]
+  | .type => .list [.atom "error", .atom "type_error"]
+  | .shape => .list [.atom "error", .atom "shape"]
+  | .index => .list [.atom "error", .atom "index_error"]
+  | .notInteger => .list [.atom "error", .atom "not_integer"]
+
+def resS : Except Err Val → Sexp
+  | .ok v => .list [.atom "ok", valS v]
+  | .error e => errS e
+
+def sc? : Sexp → Option Sc
+  | .atom "true" => some (.b true)
+  | .atom "false" => some (.b false)
+  | s => (rat? s).map .q
+
+def val? : Sexp → Option Val
+  | .list (.atom "vec" :: xs) => (xs.mapM sc?).map .vec
+  | s => (sc? s).map .sc
+
+def scUn? : String → Option ScUn
+  | "neg" => some .neg | "abs" => some .abs | "floor" => some .floor | "ceil" => some .ceil
+  | "not" => some .not | _ => none
+
+def scBin? : String → Option ScBin
+  | "add" => some .add | "sub" => some .sub | "mul" => some .mul | "div" => some .div
+  | "mod" => some .mod | "min" => some .min | "max" => some .max
+  | "lt" => some .lt | "le" => some .le | "gt" => some .gt | "ge" => some .ge
+  | "eq" => some .eq | "ne" => some .ne | "and" => some .and | "or" => some .or
+  | _ => none
+
+/-- decoder of the harness' "written formula".  Literals are `3`, `(q 1 2)`, `true`, `(vec …)`;
+`(var x)`; `(neg a)` … `(pow a n)` `(bcast a n)`; `(add a b)` … `(index a i)`; `(vecx e…)`;
+`(ite c a b)`; `(sum i lo hi body)`. -/
+partial def Expr.ofSexp : Sexp → Option Expr
+  | .list [.atom "var", .atom x] => some (.var x)
+  | .list [.atom "pow", a, n] => do
+      let a ← Expr.ofSexp a; let n ← int? n; some (.pow a n)
+  | .list [.atom "bcast", a, n] => do
+      let a ← Expr.ofSexp a; let n ← nat? n; some (.bcast a n)
+  | .list [.atom "index", a, i] => do
+      let a ← Expr.ofSexp a; let i ← Expr.ofSexp i; some (.index a i)
+  | .list [.atom "ite", c, a, b] => do
+      let c ← Expr.ofSexp c; let a ← Expr.ofSexp a; let b ← Expr.ofSexp b; some (.ite c a b)
+  | .list [.atom "sum", .atom i, lo, hi, body] => do
+      let lo ← Expr.ofSexp lo; let hi ← Expr.ofSexp hi; let body ← Expr.ofSexp body
+      some (.sum i lo hi body)
+  | .list (.atom "vecx" :: es) => do
+      let es ← es.mapM Expr.ofSexp; some (Expr.vec es)
+  | s@(.list [.atom op, a]) =>
+      match scUn? op with
+      | some o => do let a ← Expr.ofSexp a; some (.un (.sc o) a)
+      | none => (val? s).map .lit
+  | s@(.list [.atom op, a, b]) =>
+      match scBin? op with
+      | some o => do let a ← Expr.ofSexp a; let b ← Expr.ofSexp b; some (.bin (.sc o) a b)
+      | none => (val? s).map .lit
+  | s => (val? s).map .lit
+
+def binding? : Sexp → Option (String × Val)
+  | .list [.atom x, v] => (val? v).map (fun v => (x, v))
+  | _ => none
+
+def env? (s : Sexp) : Option Env := (listOf? binding? s).map Env.ofList
+
+def sbinding? : Sexp → Option (String × Expr)
+  | .list [.atom x, e] => (Expr.ofSexp e).map (fun e => (x, e))
+  | _ => none
+
+def subst? (s : Sexp) : Option Subst :=
+  (listOf? sbinding? s).map (fun l x => (l.find? (fun p => p.1 == x)).map (·.2))
+
+def cmp? : Sexp → Option Cmp
+  | .atom "lt" => some .lt | .atom "le" => some .le | .atom "gt" => some .gt | .atom "ge" => some .ge
+  | _ => none
+
+def pyOp? : Sexp → Option PyOp
+  | .atom "add" => some .add | .atom "radd" => some .radd | .atom "sub" => some .sub
+  | .atom "rsub" => some .rsub | .atom "mul" => some .mul | .atom "rmul" => some .rmul
+  | .atom "truediv" => some .truediv | .atom "rtruediv" => some .rtruediv
+  | .atom "floordiv" => some .floordiv | .atom "rfloordiv" => some .rfloordiv
+  | _ => none
+
+/-- a formula given directly, or as the result of one of the modelled operations:
+`(build op self other)` (operator of `ExpressionScalar`), `(subst σ e)` (`evaluate_symbolic` with
+expressions), `(partial (ρ₁ ρ₂ …) e)` (successive `evaluate_symbolic` with numbers / arrays) -/
+def formula? : Sexp → Option Expr
+  | .list [.atom "build", op, self, other] => do
+      let op ← pyOp? op; let s ← Expr.ofSexp self; let o ← Expr.ofSexp other
+      some (op.build s o)
+  | .list [.atom "subst", sigma, e] => do
+      let σ ← subst? sigma; let e ← Expr.ofSexp e
+      some (subst σ e)
+  | .list [.atom "partial", .list envs, e] => do
+      let ρs ← envs.mapM env?; let e ← Expr.ofSexp e
+      some (ρs.foldl (fun e ρ => substNum ρ e) e)
+  | s => Expr.ofSexp s
+
 def handle : List Sexp → Sexp
-  | _ => Sexp.err "c12-not-implemented"
+  | [.atom "eval", env, e] =>
+    match env? env, formula? e with
+    | some ρ, some e => resS (eval ρ e)
+    | _, _ => Sexp.err "bad-args"
+  | [.atom "judge", env, e, got, tol] =>
+    -- verdict on a value returned by the implementation
+    match env? env, formula? e, val? got, rat? tol with
+    | some ρ, some e, some got, some tol =>
+      match eval ρ e with
+      | .error err => .list [.atom "undefined", errS err]
+      | .ok v => if agreesB tol ρ e got then .list [.atom "ok", valS v]
+                 else .list [.atom "violates", .atom "value-differs", valS v]
+    | _, _, _, _ => Sexp.err "bad-args"
+  | [.atom "subst-eval", env, sigma, e] =>
+    -- value after `evaluate_symbolic(sigma)`, and the value the substitution lemma predicts
+    match env? env, subst? sigma, Expr.ofSexp e with
+    | some ρ, some σ, some e => .list [.atom "subst", resS (eval ρ (subst σ e)), resS (eval (ρ.after σ) e)]
+    | _, _, _ => Sexp.err "bad-args"
+  | [.atom "cmp3", c, e₁, e₂] =>
+    match cmp? c, Expr.ofSexp e₁, Expr.ofSexp e₂ with
+    | some c, some e₁, some e₂ =>
+      match cmp3 c e₁ e₂ with
+      | some t => .list [.atom "some", ofBool t]
+      | none => .atom "none"
+    | _, _, _ => Sexp.err "bad-args"
+  | [.atom "known-class", .list known, e] =>
+    match known.mapM (fun | .atom x => some x | _ => none), formula? e with
+    | some ks, some e => ofBool (InKnownClassClosedSum ks e)
+    | _, _ => Sexp.err "bad-args"
+  | [.atom "fv", e] =>
+    match Expr.ofSexp e with
+    | some e => .list ((fv e).eraseDups.map .atom)
+    | none => Sexp.err "bad-args"
+  | _ => Sexp.err "c12-unknown-request"
 
 end QP.C12
